@@ -616,6 +616,10 @@ func (p *Prog) rescales(s ast.Stmt, target string) bool {
 
 // isZeroTestOf matches V == 0 / V[0]|V[1] == 0 for the variable.
 func (p *Prog) isZeroTestOf(cond ast.Expr, target string) bool {
+	// any spelling of "every limb of target is zero"
+	if k, isZero, ok := p.wholeZeroTest(cond); ok && isZero && k == target {
+		return true
+	}
 	be, ok := ast.Unparen(cond).(*ast.BinaryExpr)
 	if !ok || be.Op != token.EQL {
 		return false
